@@ -42,7 +42,14 @@ STATE_MEASURE = ('distinct (previous id, next id) pairs and (prev2, prev, '
                  'next) triples reached')
 
 
-def render(ids, crlf=False, style=None):
+# lines that are neither blank (ASCII whitespace only) nor headers: a
+# reader stops at them with a parse error, whatever came before
+JUNK_LINES = [b'\xc2\xa0', b'\xe2\x80\xa8', b'\xc2\x85', b'\x1c', b'\x1f',
+              b'\xe3\x80\x80', b' #.change:', b'\t#..file:', b'#', b'x',
+              b'\xa0', b'\x85', b'.change:', b'#.Change:']
+
+
+def render(ids, crlf=False, style=None, junk=None):
     """style: optional list, one small int per section, selecting header
     variations that never change whether the id may follow its predecessor
     (extra options, blank lines before the header, a very long header)."""
@@ -54,6 +61,9 @@ def render(ids, crlf=False, style=None):
         st = style[i] if style and i < len(style) and \
             isinstance(style[i], int) else 0
         extra = b''
+
+        if junk and junk[0] == i:
+            out.append(JUNK_LINES[junk[1] % len(JUNK_LINES)] + nl)
 
         if st & 1:
             # blank lines (before the first header too; there in either
@@ -171,6 +181,8 @@ def generate(rng, tier, cls):
             'noise': pipe.gen_noise(rng),
             'crlf': rng.chance(0.15),
             'dom_hook': rng.chance(0.15),
+            'junk': [rng.below(len(ids)), rng.below(100)]
+            if rng.chance(0.08) else None,
             'norewind': rng.randint(1, 6) if rng.chance(0.08) else None,
             'stream': gen.gen_stream(rng)[0],
             'stream_extras': sx,
@@ -259,8 +271,23 @@ def execute(scn, L):
         out.discarded = 'empty-sequence'
         return out
 
-    data = render(ids, crlf=bool(scn.get('crlf')), style=scn.get('style'))
+    junk = scn.get('junk')
+
+    if not (isinstance(junk, list) and len(junk) == 2 and
+            all(isinstance(x, int) for x in junk) and
+            0 <= junk[0] < len(ids)):
+        junk = None
+
+    data = render(ids, crlf=bool(scn.get('crlf')), style=scn.get('style'),
+                  junk=junk)
     k = first_illegal(ids)
+
+    if junk is not None and (k is None or junk[0] <= k):
+        # the junk line comes first: everything before it is yielded, then
+        # a parse error
+        out.probe('junk_line_between_sections')
+        ids = ids[:junk[0]] + ['<junk>'] + ids[junk[0]:]
+        k = junk[0]
     pipe.run_noise(scn, L, out)
     w = World(scn, L)
     sx = stream_extras(scn, data)
